@@ -20,6 +20,10 @@ FlowNext == \/ \E m \in Minerals :
 FlowSpec == Init /\ [][FlowNext]_vars
 \* the same workflow with faulting client callables (C07): a callable handed over by the client raises at the
 \* first evaluation, part-way through the interval or just before its end, in single and in bulk updates
+\* the fault configurations add the two viscosity-bound regimes (no texture-forming mechanism: whatever shortcut an
+\* implementation takes there, a failing call still leaves nothing behind)
+FaultConfigs == FlowConfigs \cup { [phase |-> 0, fabric |-> 0, regime |-> 0, n |-> 6], [phase |-> 1, fabric |-> 5, regime |-> 7, n |-> 6],
+                                   [phase |-> 0, fabric |-> 2, regime |-> 7, n |-> 4] }
 FaultNext == \/ FlowNext
              \/ \E m \in Minerals, fl \in Flows, par \in Pars, fc \in FaultCodes : UpdateFaulted(m, fl, par, fc)
              \/ \E ms \in Pairs, fl \in Flows, par \in Pars, fc \in FaultCodes : UpdateAllFaulted(ms, fl, par, fc)
